@@ -415,7 +415,12 @@ func summariseReaderParser(c *core.Ctx, fn *ssa.Function, key string) parserSumm
 				}
 			case *ssa.If:
 				// direction-agnostic condition + what the two sides do (return / continue)
-				sum.items = append(sum.items, "if:"+role(plain, x.Cond)+" ? "+succKind(b.Succs[0])+" : "+succKind(b.Succs[1]))
+				condStr, yes, no := role(plain, x.Cond), succKind(b.Succs[0]), succKind(b.Succs[1])
+				if bo, isB := x.Cond.(*ssa.BinOp); isB && bo.Op == token.NEQ {
+					// `a != b ? X : Y` is `a == b ? Y : X`
+					condStr, yes, no = "("+role(plain, bo.X)+"=="+role(plain, bo.Y)+")", no, yes
+				}
+				sum.items = append(sum.items, "if:"+condStr+" ? "+yes+" : "+no)
 				if bo, ok := x.Cond.(*ssa.BinOp); ok && bo.Op == token.NEQ {
 					if call, ok := bo.X.(*ssa.Call); ok {
 						if cal := call.Call.StaticCallee(); cal != nil && cal.Name() == "Error" {
